@@ -11,7 +11,7 @@ import (
 
 // ActCase is one case of scenario actions (C19, C20).
 type ActCase struct {
-	Kind    string            `json:"kind"` // valid | syntaxerr | undefbuiltin | failexec | duptask
+	Kind    string            `json:"kind"` // valid | syntaxerr | undefbuiltin | failexec | duptask | badtemplate
 	Prog    Program           `json:"prog"`
 	Tree    map[string]string `json:"tree"`
 	Actions []Act             `json:"actions"`
@@ -54,7 +54,7 @@ var acCwds = []string{"", "", "", "sub", "sub/deep"}
 func (actScen) Gen(r *Rng, cfg GenConfig) any {
 	c := &ActCase{Kind: "valid", Tree: map[string]string{}, Sched: genSched(r)}
 	if cfg.Prop == "C19" {
-		c.Kind = Pick(r, []string{"valid", "valid", "valid", "syntaxerr", "undefbuiltin", "failexec", "duptask"})
+		c.Kind = Pick(r, []string{"valid", "valid", "valid", "syntaxerr", "undefbuiltin", "failexec", "duptask", "badtemplate"})
 	}
 	nt := r.Range(1, 5)
 	names := []string{"AAAAAA", "BBBBBB", "CCCCCC", "DDDDDD", "EEEEEE"}[:nt]
@@ -190,6 +190,10 @@ func (actScen) Exec(w *World, cc any, prop string) *Result {
 		text = "UNDEF := nosuchbuiltin(\"x\")\n" + text
 	case "failexec":
 		text = "FAILS := exec(\"exit 3\")\n" + text
+	case "badtemplate":
+		// parses, but the command is not a valid template: the spokfile does not load. The task comes first, so
+		// that no variable is declared above it
+		text = "task tmpl() {\n    echo {{ .NAME\n}\n\n" + text
 	case "duptask":
 		text += fmt.Sprintf("task %s() {\n    echo again\n}\n", c.Prog.Tasks[0].Name)
 	}
